@@ -92,7 +92,7 @@ def main():
     mp = os.path.join(dest, "meta.json")
     if os.path.exists(mp):
         old = json.load(open(mp))
-    for k in ("needs_to_manifest", "summary", "breaks_property", "written_by"):
+    for k in ("needs_to_manifest", "summary", "breaks_property", "written_by", "round", "first_evaluation", "patch_rebased"):
         if k in old:
             meta[k] = old[k]
     if "checks" in old and not "--all" in sys.argv:
